@@ -58,7 +58,7 @@ def _expected_features():
         exp += [f"lit/{q}", f"bs/{q}"]
     exp += [f"len/{cls}" for cls in ("unset", "empty", "nonempty")]
     exp += ["sq", "dq", "dq-empty", "$#", "$?", "state/nounset", "out/two-allowed", "out/assigned",
-            "out/has-empty-field", "out/err-unset", "out/err-vacant", "out/err-nonassignable",
+            "out/assigned-IFS", "out/has-empty-field", "out/err-unset", "out/err-vacant", "out/err-nonassignable",
             "out/fields=0", "out/fields=1", "out/fields=2", "out/fields=>2"]
     return exp
 
